@@ -598,6 +598,9 @@ class SymbolValue(Value):
         if symbol.is_numeric():
             return NumericValue(-symbol.int if symbol.is_negative() else symbol.int)
 
+        if symbol.is_address_expression():
+            return symbol
+
         raise ValueError("[{}] cannot be resolved to a value".format(self.value))
 
     def is_8_bit(self):
